@@ -1340,7 +1340,7 @@ func cfgPanicCandidates(pl string) []string {
 	if has("index out of range") || has("interface conversion") && has("not float64") {
 		out = append(out, "CatchmentDataSetMalformed")
 	}
-	if has("Attempt to round floating point number too big") {
+	if isRoundingRefusal(pl) {
 		out = append(out, "ValueTooLargeToRound")
 	}
 	if has("nil pointer dereference") || has("invalid memory address") {
@@ -2247,7 +2247,7 @@ func cfgCheckMalformed(c *Ctx, hexText string) {
 				// a damaged text that is still a configuration naming the table-less shipped CSV: the known finding
 				sig = "config:CatchmentDataSourceNotLoadable"
 			}
-			if strings.Contains(p2, "Attempt to round floating point number too big") && strings.Contains(text, "MultiObjectiveDumbModel") {
+			if isRoundingRefusal(p2) && strings.Contains(text, "MultiObjectiveDumbModel") {
 				// … or giving the multi-objective dumb model an initial value beyond MaxFloat64/100: the known finding
 				sig = "config:ValueTooLargeToRound"
 			}
